@@ -133,7 +133,7 @@ mod verif_c16 {
         std::mem::forget(pb);
     }
 
-    // @harness id=C16 tier=thorough timeout=3400 mem=20
+    // @harness id=C16 tier=deep timeout=3400 mem=20
     // @bounds 2 symbolic operations out of {set_tab_width(0..=2), set_style(template literal with a TAB), set_message, set_prefix, finish_with_message} with texts from the table, then one forced draw on a 16-column screen
     #[kani::proof]
     #[kani::unwind(18)]
@@ -142,7 +142,7 @@ mod verif_c16 {
         run(2);
     }
 
-    // @harness id=C16 tier=thorough timeout=3400 mem=20
+    // @harness id=C16 tier=deep timeout=3400 mem=20
     // @bounds as c16_two_ops with 3 operations
     #[kani::proof]
     #[kani::unwind(18)]
